@@ -83,6 +83,23 @@ def allDistinct (ids : List (Nat × RIdent)) : Bool :=
 /-- identity of a BatchRelease: (namespace, name) -/
 def relDistinct (ns₁ n₁ ns₂ n₂ : String) : Bool := !(ns₁ == ns₂ && n₁ == n₂)
 
+/-- the operations a BatchRelease `(ns, n)` performs on the resource expectations -/
+def brOpOf (ns n : String) : EOp → Bool
+  | .brCreate _ ns' n' _ _ _ _ => ns' == ns && n' == n
+  | .brObserved ns' _ o => ns' == ns && (match o with | some ow => ow.kind != "BatchRelease" || ow.name == n | none => true)
+  | _ => false
+
+/-- every operation of the trace is performed by the BatchRelease that owns it -/
+def brTraceOf (rels : List (Nat × String × String)) (tr : List (Ev EOp)) : Bool :=
+  tr.all fun e => match e with
+    | .op r o => match rels.lookup r with
+      | some x => brOpOf x.1 x.2 o
+      | none => false
+    | _ => true
+
+def brAllDistinct (rels : List (Nat × String × String)) : Bool :=
+  rels.all fun a => noSlash a.2.1 && rels.all fun b => a.1 == b.1 || relDistinct a.2.1 a.2.2 b.2.1 b.2.2
+
 /-! ### API objects -/
 
 /-- the names of two rollouts' network objects do not run into each other: none of the four objects
